@@ -36,11 +36,12 @@ theorem sweep_order_as_modelled :
     NV.Gen.C09.sweepOrder = ["period_test", "save_context", "setjmp", "walk", "reset", "pop_context"] := by decide
 
 /-- `removeInteractive` / `netDeadHook` / `freeConnOf`: CLOSING tested, then set, then net_dead under safe_apply, the
-    console shutdown request, then the record is freed and pointer and slot are cleared -/
+    console shutdown request, then the pending events of the record are cleared, the record is freed and pointer and slot
+    are cleared -/
 theorem remove_interactive_order_as_modelled :
     NV.Gen.C09.removeInteractiveOrder =
-      ["test_closing", "set_closing", "net_dead", "shutdown", "shutdown", "free", "clear_pointer", "clear_slot",
-       "free_object"] := by decide
+      ["test_closing", "set_closing", "net_dead", "shutdown", "shutdown", "clear_pending", "free", "clear_pointer",
+       "clear_slot", "free_object"] := by decide
 
 /-- `serveCommand`: process_input, VALIDATE_IP, the command, VALIDATE_IP, the prompt -/
 theorem user_command_order_as_modelled :
@@ -52,5 +53,269 @@ theorem user_command_order_as_modelled :
 theorem connect_order_as_modelled :
     NV.Gen.C09.connectOrder =
       ["add_ref_master", "connect", "rejected", "bind", "clear_master", "free_master", "add_ref_user"] := by decide
+
+/-- `setHeartBeat` (removal): only while a round is running (`num_hb_to_do != 0`) the round's position and length are
+    adjusted - `index <= heart_beat_index` is the model's `i < hbNext` (hbNext = heart_beat_index + 1), `index < num_hb_to_do`
+    is `i < hbToDo` -/
+theorem hb_remove_as_modelled :
+    NV.Gen.C09.hbRemoveStmts =
+      ["if (num_hb_to_do)",
+       "if (index <= heart_beat_index)",
+       "heart_beat_index--;",
+       "if (index < num_hb_to_do)",
+       "num_hb_to_do--;"] := by decide
+
+/-- `callHeartBeat` / `hbRound` / `hbLoop`: the round covers the entries present at its start, runs only when there is
+    one, starts at index 0, stops when `++heart_beat_index == num_hb_to_do` (`hbNext = hbToDo`), resets both to 0 and clears
+    `current_heart_beat` before the sweeps -/
+theorem hb_round_as_modelled :
+    NV.Gen.C09.hbRoundStmts =
+      ["num_hb_to_do = num_hb_objs;",
+       "if ((MAIN_OPTION(timer_flags) & TIMER_FLAG_HEARTBEAT) && (num_hb_to_do > 0))",
+       "heart_beat_index = 0;",
+       "ob = (curr_hb = &heart_beats[heart_beat_index])->ob;",
+       "current_heart_beat = ob;",
+       "if (++heart_beat_index == num_hb_to_do)",
+       "if (heart_beat_index < num_hb_to_do)",
+       "perc_hb_probes = 100 * (float) heart_beat_index / num_hb_to_do;",
+       "heart_beat_index = num_hb_to_do = 0;",
+       "current_heart_beat = 0;"] := by decide
+
+/-- `timerSweeps` / `sweepPass` / `sweepObject` / `cleanupObject`: `current_time < next_time` skips the sweep, the period is
+    `Gen.sweepPeriod`; destructed objects are skipped; `ref_time` is read BEFORE the reset test; reset when
+    `next_reset < current_time` (strictly) and O_RESET_STATE is clear; clean_up when enabled, `current_time - ref_time >
+    __TIME_TO_CLEAN_UP__` (strictly) and O_WILL_CLEAN_UP; O_RESET_STATE saved before and or-ed back after the apply (not on
+    the error path, not for an object that destructed itself) -/
+theorem sweep_tests_as_modelled :
+    NV.Gen.C09.sweepStmts =
+      ["if (current_time < next_time)",
+       "next_time = current_time + 15 * 60;",
+       "if (ob->flags & O_DESTRUCTED)",
+       "ref_time = ob->time_of_ref;",
+       "if ((ob->flags & O_WILL_RESET) && (ob->next_reset < current_time) && !(ob->flags & O_RESET_STATE))",
+       "if (CONFIG_INT (__TIME_TO_CLEAN_UP__) > 0)",
+       "if (current_time - ref_time > CONFIG_INT (__TIME_TO_CLEAN_UP__) && (ob->flags & O_WILL_CLEAN_UP))",
+       "int save_reset_state = ob->flags & O_RESET_STATE;",
+       "if (ob->flags & O_DESTRUCTED)",
+       "ob->flags &= ~O_WILL_CLEAN_UP;",
+       "ob->flags |= save_reset_state;"] := by decide
+
+/-- `touch`: apply_low() stamps `time_of_ref` and clears O_RESET_STATE before it looks for the function -/
+theorem apply_touch_as_modelled :
+    NV.Gen.C09.applyTouchStmts =
+      ["ob->time_of_ref = current_time;",
+       "#endif ob->flags &= ~O_RESET_STATE;"] := by decide
+
+/-- `inputToCommand`: NOESC dropped, no sentence -> 0, the sentence is freed and `i->input_to` cleared BEFORE the callback -/
+theorem input_to_call_as_modelled :
+    NV.Gen.C09.inputToCallStmts =
+      ["i->iflags &= ~NOESC;",
+       "if (!(sent = i->input_to))",
+       "funp = sent->function.f;",
+       "args = sent->args;",
+       "i->input_to = 0;",
+       "free_sentence",
+       "clear_input_to",
+       "callback"] := by decide
+
+/-- `setInputTo` / `armInputTo`: refused without a connection or with a pending input_to, else installed -/
+theorem set_call_as_modelled :
+    NV.Gen.C09.setCallStmts =
+      ["if (ob == 0 || sent == 0 || ob->interactive == 0 || ob->interactive->input_to)",
+       "ob->interactive->input_to = sent;"] := by decide
+
+/-- `promptStage`: the prompt is written only while `ip->input_to == 0`; the record is re-validated (IP_VALID) after each
+    step that can run LPC code (the scripted user object defines write_prompt(): hook kind `prompt`, unprotected apply) -/
+theorem prompt_as_modelled :
+    NV.Gen.C09.promptStmts =
+      ["if (ip->input_to == 0)",
+       "if (!(ip->iflags & HAS_WRITE_PROMPT))",
+       "if (!IP_VALID (ip, ob))",
+       "ip->iflags &= ~HAS_WRITE_PROMPT;",
+       "if (!IP_VALID (ip, ob))",
+       "if (!IP_VALID (ip, ob))"] := by decide
+
+/-- `serveCommand`: destructed command_giver first; the `!` escape and the ed branch (not scripted); then
+    call_function_interactive BEFORE process_input (`inputToCommand` vs `plainCommand`) -/
+theorem command_branches_as_modelled :
+    NV.Gen.C09.commandBranchStmts =
+      ["if (command_giver->flags & O_DESTRUCTED)",
+       "if ((user_command[0] == '!') && ( #ifdef OLD_ED ip->ed_buffer || #endif (ip->input_to && !(ip->iflags & NOESC))))",
+       "if (ip->iflags & HAS_PROCESS_INPUT)",
+       "ip->iflags &= ~HAS_PROCESS_INPUT;",
+       "if (ip->ed_buffer)",
+       "if (call_function_interactive (ip, user_command))",
+       "if (ip->iflags & HAS_PROCESS_INPUT)",
+       "ip->iflags &= ~HAS_PROCESS_INPUT;"] := by decide
+
+/-- `scanUsers`: at most `max_users` slots are looked at, the turn flag is tested and consumed, the cursor steps DOWN and
+    wraps from 0 to `max_users - 1` (both after a miss and after taking a command) -/
+theorem cursor_as_modelled :
+    NV.Gen.C09.cursorStmts =
+      ["static int s_next_user = 0;",
+       "for (i = 0; i < max_users; i++)",
+       "ip = all_users[s_next_user];",
+       "if (ip->iflags & HAS_CMD_TURN)",
+       "ip->iflags &= ~HAS_CMD_TURN;",
+       "if (s_next_user-- == 0)",
+       "s_next_user = max_users - 1;",
+       "if (s_next_user-- == 0)",
+       "s_next_user = max_users - 1;"] := by decide
+
+/-- `startup` / `cycleHead` / `cycleBody` / `commandLoop`: the start-up steps are numbered (each runs once), every connected
+    user is granted a turn and counted, the command loop runs while a command was processed and `i < connected_users` -/
+theorem backend_loop_as_modelled :
+    NV.Gen.C09.backendLoopStmts =
+      ["volatile int startup_step = 0;",
+       "if (startup_step == 0)",
+       "startup_step = 1;",
+       "if (startup_step == 1)",
+       "startup_step = 2;",
+       "int connected_users = 0;",
+       "all_users[i]->iflags |= HAS_CMD_TURN;",
+       "connected_users++;",
+       "for (i = 0; process_user_command () && i < connected_users; i++)"] := by decide
+
+/-- `newInteractive` / `firstFree`: the search starts at slot 1 and stops below `max_users`; the table grows by
+    `Gen.userChunk` when `i >= max_users`, new slots are cleared -/
+theorem slot_search_as_modelled :
+    NV.Gen.C09.slotSearchStmts =
+      ["for (i = 1; i < max_users; i++)",
+       "if (i >= max_users)",
+       "int new_max_users = max_users + 50;",
+       "all_users = RESIZE (all_users, new_max_users, interactive_t *, TAG_USERS, \"new_user_handler\");",
+       "all_users = CALLOCATE (new_max_users, interactive_t *, TAG_USERS, \"new_user_handler\");",
+       "while (max_users < new_max_users)",
+       "all_users[max_users++] = 0;"] := by decide
+
+/-- `processIoEvents` / `ioEvent` / `processIo`: every reported event is looked at, the record is validated before
+    use, error / hang-up is handled before reading, the record is re-validated through the object after get_user_data, the
+    console flush is guarded by `all_users && all_users[0]` -/
+theorem process_io_as_modelled :
+    NV.Gen.C09.processIoStmts =
+      ["if (g_num_io_events > 0)",
+       "for (i = 0; i < g_num_io_events; i++)",
+       "interactive_t *console_ip = all_users[0];",
+       "console_ip = all_users[0];",
+       "if (!ip->ob || (ip->ob->flags & O_DESTRUCTED) || ip->ob->interactive != ip)",
+       "if (evt->event_type & (EVENT_ERROR | EVENT_CLOSE))",
+       "if ((user_ob->flags & O_DESTRUCTED) || user_ob->interactive != ip)",
+       "if (all_users && all_users[0])"] := by decide
+
+/-- `removeInteractive` / `netDeadHook` / `freeConnOf`: CLOSING guard (tested, then set), net_dead only when not
+    destructed, console test, pending events of this poll round that point to the record are cleared before it is freed,
+    the slot is searched in the whole table and cleared -/
+theorem remove_tests_as_modelled :
+    NV.Gen.C09.removeStmts =
+      ["if (ip->iflags & CLOSING)",
+       "if (!dested)",
+       "ip->iflags |= CLOSING;",
+       "if (!dested)",
+       "if (ip != all_users[0])",
+       "if (MAIN_OPTION(console_mode) && ip == all_users[0])",
+       "for (idx = 0; idx < g_num_io_events; idx++)",
+       "if (g_io_events[idx].context == ip)",
+       "g_io_events[idx].context = 0;",
+       "for (idx = 0; idx < max_users; idx++)",
+       "if (all_users[idx] == ip)",
+       "all_users[idx] = 0;"] := by decide
+
+/-- inventory of EVERY place in backend.c, error_context.c, comm.c and call_out.c where the driver itself starts LPC code
+    (file : function : call : what), in source order.  Modelled: connect (own recovery point - `mudlibConnect`), logon
+    (safe_apply since the fix commit - `logonHook`), clean_up (recovery point of the sweep -
+    `cleanupObject`), heart_beat (`hbLoop`), the master's error_handler (errors re-enter error_handler -
+    `callMasterHandler`), process_input x2 of process_user_command (`inputStage`), net_dead (safe_apply - `netDeadHook`), the
+    input_to callback (`inputToCommand`), write_prompt (`promptStage`), both call_out forms (per-entry recovery point - `sweepCallOuts`).  Not modelled
+    (see not_covered): preload/epilog (before backend()), receive_snoop, the three telnet callbacks (safe_apply, C13),
+    process_input of the ASCII port in get_user_data, address-server
+    callbacks, notify_fail closure.  A NEW site - protected or not - changes this list and breaks the obligation. -/
+theorem apply_sites_as_modelled :
+    NV.Gen.C09.applySites =
+      ["backend.c:mudlib_connect:safe_apply_master_ob:APPLY_CONNECT",
+       "backend.c:mudlib_logon:safe_apply:APPLY_LOGON",
+       "backend.c:look_for_objects_to_swap:apply:APPLY_CLEAN_UP",
+       "backend.c:call_heart_beat:call_function:ob->prog",
+       "backend.c:preload_objects:apply_master_ob:APPLY_EPILOG",
+       "backend.c:preload_objects:apply_master_ob:APPLY_PRELOAD",
+       "error_context.c:mudlib_error_handler:apply_master_ob:APPLY_ERROR_HANDLER",
+       "error_context.c:mudlib_error_handler:apply_master_ob:APPLY_ERROR_HANDLER",
+       "comm.c:receive_snoop:apply:APPLY_RECEIVE_SNOOP",
+       "comm.c:copy_chars:safe_apply:APPLY_TERMINAL_TYPE",
+       "comm.c:copy_chars:safe_apply:APPLY_WINDOW_SIZE",
+       "comm.c:copy_chars:safe_apply:APPLY_TELNET_SUBOPTION",
+       "comm.c:process_user_command:apply:APPLY_PROCESS_INPUT",
+       "comm.c:process_user_command:apply:APPLY_PROCESS_INPUT",
+       "comm.c:get_user_data:apply:APPLY_PROCESS_INPUT",
+       "comm.c:get_user_data:apply:APPLY_PROCESS_INPUT",
+       "comm.c:remove_interactive:safe_apply:APPLY_NET_DEAD",
+       "comm.c:call_function_interactive:call_function_pointer:funp",
+       "comm.c:print_prompt:apply:APPLY_WRITE_PROMPT",
+       "comm.c:query_addr_number:apply:call_back",
+       "comm.c:query_addr_number:apply:call_back",
+       "comm.c:query_addr_number:apply:call_back",
+       "comm.c:got_addr_number:safe_apply:ipnumbertable[i].call_back",
+       "comm.c:notify_no_command:safe_call_function_pointer:p.f",
+       "call_out.c:call_out:apply:cop->function.s",
+       "call_out.c:call_out:call_function_pointer:cop->function.f"] := by decide
+
+/-- `preloadObjects` / `preloadFiles`: epilog() under its own recovery point (error: restore, pop, return - nothing is
+    preloaded); then the files under a second recovery point IN FRONT of the loop, whose error branch does `ix++` (the
+    failing file is not retried, the next one is not skipped) -/
+theorem preload_as_modelled :
+    NV.Gen.C09.preloadStmts =
+      ["save_context",
+       "setjmp",
+       "restore",
+       "pop_context",
+       "return",
+       "epilog",
+       "pop_context",
+       "return",
+       "return",
+       "save_context",
+       "setjmp",
+       "restore",
+       "next_file",
+       "loop",
+       "preload",
+       "pop_context",
+       "prefiles = ret->u.arr;",
+       "if ((prefiles == 0) || (prefiles->size < 1))",
+       "prefiles->ref++;",
+       "ix = 0;",
+       "ix++;",
+       "for (; ix < prefiles->size; ix++)",
+       "if (prefiles->item[ix].type != T_STRING)"] := by decide
+
+/-- `errorHandler` / `caughtError` / `callMasterHandler`: both branches (caught / uncaught) test
+    in_mudlib_error_handler; inside the handler the flag is cleared ONLY when the error is delivered to the context the
+    handler was entered with (`current_error_context == mudlib_error_handler_context`): a catch() made by the handler
+    keeps the flag (`caughtError` with the flag set changes nothing; behaviour `recurse` of the master ends like `raise`) -/
+theorem error_handler_stmts_as_modelled :
+    NV.Gen.C09.errorHandlerStmts =
+      ["if (in_mudlib_error_handler)",
+       "if (current_error_context == mudlib_error_handler_context)",
+       "in_mudlib_error_handler = 0;",
+       "in_mudlib_error_handler = 1;",
+       "mudlib_error_handler_context = current_error_context;",
+       "in_mudlib_error_handler = 0;",
+       "if (in_error)",
+       "in_error = 1;",
+       "if (in_mudlib_error_handler)",
+       "if (current_error_context == mudlib_error_handler_context)",
+       "in_mudlib_error_handler = 0;",
+       "in_mudlib_error_handler = 1;",
+       "mudlib_error_handler_context = current_error_context;",
+       "in_error = 0;",
+       "in_error = 1;",
+       "in_mudlib_error_handler = 0;",
+       "if (current_heart_beat)",
+       "current_heart_beat = 0;",
+       "in_error = 0;"] := by decide
+
+/-- every source shape of the repaired code that the model mirrors is present (all_users guard, re-validation through
+    the object, recovery point before the start-up steps, load-average clamp, connect() under its own recovery point,
+    pending events cleared when a record is freed, logon() under its own recovery point) -/
+theorem guards_present : NV.Gen.C09.guardsPresent = [1, 1, 1, 1, 1, 1, 1] := by decide
 
 end NV.C09
